@@ -12,7 +12,7 @@ checks = {
    note="Bounded: depth/grants/alphabet as reported in evidence.bounds. Trusted: the harness drivers (HTTP round trips through httptest), the overlay clock rewrite, the deterministic random source; reference MemoryStore behind a logging proxy."),
  "C03": dict(level="model_checking", engine="SEQ", ref="DESIGN.md §5 C03",
    technique="exhaustive enumeration of all redemption-attempt sequences up to a depth on the real token endpoint, judged by a reference predicate",
-   text="All sequences of <=4 (quick) / <=5 (thorough) redemption attempts drawn from 7 attempt kinds on one code, for every enforcement x plain x client type x flow x binding configuration, run on the real provider; tokens may only be issued for a well-formed verifier that transforms to the bound challenge under the bound method.",
+   text="All sequences of <=4 (quick) / <=5 (thorough) redemption attempts drawn from 7 attempt kinds on one code, for every enforcement x plain x client type x flow x binding configuration, run on the real provider; tokens may only be issued for a well-formed verifier that transforms to the bound challenge under the bound method. Further alphabets to smaller depths: unusual grant_type spellings and a transient PKCE-lookup failure; 8 spellings of the code itself (white space, CR/LF, prefix variants); histories whose authorization response was built while one of its storage writes failed.",
    note="One-sided oracle exactly as the statement; verifier alphabet is the 7 listed kinds; PKCE parameters other than those listed are out of the alphabet."),
  "C04": dict(level="model_checking", engine="HIST", ref="DESIGN.md §5 C04",
    technique="explicit-state BFS over API histories of the real provider with a lock-step reference model (refresh chains, replay of any generation), global state deduplication",
@@ -35,7 +35,7 @@ checks.update({
    note="Alphabets are those listed in evidence.bounds; code ages are 5 s away from the expiry instant (expiry rounding is C07)."),
  "C05": dict(level="exploration", engine="ENUM", ref="DESIGN.md §5 C05",
    technique="exhaustive enumeration of the full product of grant / request / registration-change / configuration dimensions on the real provider against independent reference strategies",
-   text="Every combination of grant origin x granted scopes x audience x refresh-request parameters x presenter x post-issuance registration change (in place or by replacing the record) x refresh-scope configuration x scope strategy x client refresh grant x prior chain length x partial consent is executed on a fresh provider; refresh honoured only for the owner still covering every granted scope/audience and holding the grant; new tokens' sub/scope/aud equal the original grant; refresh tokens only issued under the stated conditions.",
+   text="Every combination of grant origin x granted scopes x audience x refresh-request parameters x presenter x post-issuance registration change (in place or by replacing the record) x refresh-scope configuration x scope strategy x client refresh grant x prior chain length x partial consent (registration edits include leaving a look-alike string prefix of the removed scope registered) is executed on a fresh provider; refresh honoured only for the owner still covering every granted scope/audience and holding the grant; new tokens' sub/scope/aud equal the original grant; refresh tokens only issued under the stated conditions.",
    note="Scope coverage judged by refstrat.go (independent implementation of the documented strategies)."),
 })
 
@@ -46,7 +46,7 @@ checks.update({
    note="Strings decoding to the genuine bytes are don't-care; entropy is checked structurally (crypto/rand quality assumed)."),
  "C12": dict(level="exploration", engine="ENUM", ref="DESIGN.md §5 C12",
    technique="exhaustive enumeration of all (registered, requested) string pairs over a segment alphabet and of a URL grid against documented semantics (two-sided), plus the full flow x strategy x request-family product on the real provider (one-sided)",
-   text="Part 1 compares the three scope strategies and two audience strategies with an independent transcription of the documentation on every pair of dotted strings over {a,b,ab,*,empty} up to 5 (quick) / 6 (thorough) segments and every pair of a 72-URL grid. Part 2 runs 11 flows x 3 scope strategies x 2 audience strategies x 12 scope families x 8 audience families on a fresh provider: uncovered requests must issue nothing and token scope/audience must stay within the grant.",
+   text="Part 1 compares the three scope strategies and two audience strategies with an independent transcription of the documentation on every pair of dotted strings over {a,b,ab,*,empty} up to 5 (quick) / 6 (thorough) segments and every pair of a 72-URL grid. Part 2 runs 11 flows x 3 scope strategies x 2 audience strategies x 12 scope families x 10 audience families x {full, partial consent} on a fresh provider: uncovered requests must issue nothing and token scope/audience must stay within the grant, also after one refresh.",
    note="Documentation-undefined inputs (empty segments absorbed by a trailing wildcard, host case) are don't-care."),
  "C16": dict(level="model_checking", engine="SEQ", ref="DESIGN.md §5 C16",
    technique="exhaustive enumeration (iterative deepening) of all operation sequences up to a depth over <=2 device flows on the real provider with a lock-step model, for the reference store and a contract-following store",
@@ -64,21 +64,21 @@ checks.update({
 checks.update({
  "C07": dict(level="exploration", engine="ENUM", ref="DESIGN.md §5 C07",
    technique="exhaustive enumeration of credential kind x lifetime source x issue offset x history position x age x exp encoding x session implementation under a virtual clock on the real provider; exhaustive override table",
-   text="21 credential kinds (code; access tokens from 8 grants incl. JWT; refresh tokens from 3 grants and unlimited; device/user code; request_uri; JWT-bearer and client assertions with int/float/fractional exp; access token used as bearer; tokens after an abandoned refresh/redemption) x 3 lifetime sources x 3 sub-second issue offsets x 2 history positions x 7 ages on both sides of expiry x 2 session implementations: >=2 s after expiry must be refused wherever presented, >=2 s before an advertised expiry must be honoured, advertised lifetime within 1 s of the effective one; GetEffectiveLifespan checked for all 12 fields x 7 grants x 4 token types.",
+   text="21 credential kinds (code; access tokens from 8 grants incl. JWT; refresh tokens from 3 grants and unlimited; device/user code; request_uri; JWT-bearer and client assertions with int/float/fractional exp; access token used as bearer; tokens after an abandoned refresh/redemption) x 8 lifetime sources (server default, three configured triples, per-client override, session-provided access-token expiry, unlimited refresh tokens alone and under a finite override) x 3 (11 thorough) sub-second issue offsets x 3 history positions x 10 (22) ages on both sides of expiry x 2 session implementations: >=2 s after expiry must be refused wherever presented, >=2 s before an advertised expiry must be honoured, advertised lifetime within 1 s of the effective one; GetEffectiveLifespan checked for all 12 fields x 7 grants x 4 token types.",
    note="+-1 s around expiry is don't-care; the clock is the overlay virtual clock (all time.Now/Since/Until in ory/fosite are rewritten at build time)."),
 })
 
 checks.update({
  "C11": dict(level="exploration", engine="ENUM", ref="DESIGN.md §5 C11",
    technique="exhaustive enumeration of a URI mutation grammar (all compositions up to a depth) x registered sets x response modes x error timings against the real authorization and PAR endpoints; written bytes judged by an independent RFC 3986 splitter",
-   text="For 14 registered-URI sets, every composition of <=1 (quick) / <=2 (thorough) of 60 mutations of a registered URI is requested under 6 response type/mode combinations and 7 error timings (and through PAR); whenever a Location header or form_post action is written, its target (minus response parameters) must be identical to a registered URI or an http loopback-literal variant with equal host/path/query, absolute and fragment-free; codes never go to plain-http non-local targets; a missing redirect_uri with several registered never redirects.",
+   text="For 14 registered-URI sets, every composition of <=2 (quick) / <=3 (thorough; depth 3 under 2 modes x 2 error timings) of 60 mutations of a registered URI is requested under 6 response type/mode combinations and 7 error timings (and through PAR); whenever a Location header or form_post action is written, its target (minus response parameters) must be identical to a registered URI or an http loopback-literal variant with equal host/path/query, absolute and fragment-free; codes never go to plain-http non-local targets; a missing redirect_uri with several registered never redirects.",
    note="Query permutations/re-encodings and scheme case count as identical; percent-decoded-equal loopback paths are don't-care. Known finding: form_post with non-http(s) schemes (see known_findings.json)."),
 })
 
 checks.update({
  "C10": dict(level="exploration", engine="ENUM", ref="DESIGN.md §5 C10",
    technique="exhaustive enumeration of registration x endpoint/grant x credential transport x secret relation (x skip-auth setting) on the real provider with real bcrypt, judged by an independent reference of who is authenticated; proxy-store log and store-dump equality for 'neither issues nor invalidates'",
-   text="13 client registrations (plain with 0/1/2 rotated secrets, public with/without secret hash, confidential with empty hash, OIDC clients for each token_endpoint_auth_method, special characters) x 9 endpoints/grants x 10 transports (basic, post, both, id only, nothing, malformed / unencoded header, private_key_jwt assertion with right/wrong key, assertion+basic) x 8 secret relations: a request is processed only for a presentation that authenticates the registration; every rejected one writes to no code/token table, leaves the store dump unchanged and a victim token active; public clients never pass client_credentials; only jwt-bearer with the explicit setting runs without client authentication.",
+   text="13 client registrations (plain with 0/1/2 rotated secrets, public with/without secret hash, confidential with empty hash, OIDC clients for each token_endpoint_auth_method, special characters) x 9 endpoints/grants x 10 transports (basic, post, both, id only, nothing, malformed / unencoded header, private_key_jwt assertion with right/wrong key, assertion+basic) x 8 secret relations: a request is processed only for a presentation that authenticates the registration; every rejected one writes to no code/token table, leaves the store dump unchanged and a victim token active; public clients never pass client_credentials; only jwt-bearer with the explicit setting runs without client authentication, and then the issued token is not bound to the confidential client of the failed presentation. private_key_jwt clients registered by jwks_uri run against the real JWKS fetcher and cache (in-memory transport): 6 look-alike URI pairs x 6 warm-up histories; an assertion signed with the other client's key is always refused.",
    note="Mixed presentations are don't-care; bcrypt cost 4."),
 })
 
@@ -92,14 +92,14 @@ checks.update({
 checks.update({
  "C14": dict(level="exploration", engine="ENUM", ref="DESIGN.md §5 C14",
    technique="exhaustive enumeration of flow x key/algorithm x nonce x auth_time x max_age x prompt x id_token_hint x preset expiry x extra-claims on the real provider; every ID token verified with the public key and recomputed from the same response",
-   text="8 OpenID flows (code, implicit x2, hybrid x3, refresh chains of 3, device) x 7 key/algorithm pairs (ES256/384/512, RS256/384/512, PS256) x nonce x the auth_time/max_age/prompt/hint/preset-expiry/extras grid: every ID token in any response verifies under the server key, names the client in aud, carries session subject and issuer, echoes the nonce, expires within the configured lifetime (unless preset), and its at_hash / c_hash equal the left half of the alg-selected hash of the access token / code of the same response; refresh drops c_hash; unsatisfied max_age / prompt (incl. multi-valued) / hint, empty subject, missing openid scope or a past preset expiry issue nothing.",
+   text="8 OpenID flows (code, implicit x2, hybrid x3, refresh chains of 3, device) x 7 key/algorithm pairs (ES256/384/512, RS256/384/512, PS256) x nonce x the auth_time/max_age/prompt/hint/preset-expiry/extras grid: every ID token in any response verifies under the server key, names the client in aud, carries session subject and issuer, echoes the nonce, expires within the configured lifetime (unless preset), and its at_hash / c_hash equal the left half of the alg-selected hash of the access token / code of the same response; refresh drops c_hash; unsatisfied max_age / prompt (incl. multi-valued) / hint, empty subject, openid not requested or requested but not granted, or a past preset expiry issue nothing.",
    note="Session alg header is set to the key's algorithm (integrator duty); refreshed ID tokens may omit the nonce (OIDC Core 12.2) but must not change it."),
 })
 
 checks.update({
  "C15": dict(level="model_checking", engine="SCHED+ENUM", ref="DESIGN.md §5 C15",
    technique="stateless depth-first schedule exploration of the real token endpoint under a cooperative scheduler (all interleavings of the storage steps of 2 simultaneous presentations, preemption-bounded for 3), plus exhaustive enumeration of header x key x claim-deviation grids",
-   text="Schedules: 2 and 3 simultaneous presentations of one client assertion / one JWT-bearer assertion; every interleaving at storage-call granularity for 2 threads (unbounded), preemption bound 2 (4 thorough) for 3 threads, and lock granularity with bound 2; on every complete execution at most one presentation of a jti succeeds. Grid: 6 header algorithms x 3 kid x 3 signing keys x 28 single-claim deviations (absent / wrong type / wrong value / boundary times incl. fractional exp) x scope-vs-key-scope x optional-claim configs x 3 replay positions, one-sided against the statement; overlapping presentations at API-phase granularity.",
+   text="Schedules: 2 and 3 simultaneous presentations of one client assertion / one JWT-bearer assertion; every interleaving at storage-call granularity for 2 threads (unbounded), preemption bound 2 (4 thorough) for 3 threads, and lock granularity with bound 2; on every complete execution at most one presentation of a jti succeeds. Grid: 6 header algorithms x 3 kid x 3 signing keys x 28 single-claim deviations (absent / wrong type / wrong value / boundary times incl. fractional exp) x scope-vs-key-scope x optional-claim configs x 3 replay positions, one-sided against the statement; overlapping presentations at API-phase granularity; client assertions of jwks_uri clients through the real fetcher and cache (look-alike URIs, 6 warm-up histories).",
    note="Scheduling points: storage calls, random reads, lock acquisitions (vsync shim); unknown kid and future iat are don't-care."),
 })
 
@@ -110,7 +110,7 @@ checks.update({
    note="Sentinel answers (not-found / inactive) at Get*/Revoke* calls are another store state, not a failure (don't-care). Record equality ignores session expiry fields. The transactional store is context-sensitive: a write issued during an open transaction with a context that does not carry it survives the rollback."),
  "C20": dict(level="exploration", engine="ENUM+FAULT", ref="DESIGN.md §5 C20",
    technique="exhaustive enumeration of error x hostile text x format x debug x writer with re-parsing of the bytes written; scan of every storage call of every flow for usable secrets; storage-error text injection at every storage call",
-   text="38 errors (all exported RFC errors + a plain Go error) x hint/debug text from 16 hostile fragments (pairs in quick, triples in thorough) x legacy/new format x debug exposure x 9 writers: JSON re-parsed, redirects re-parsed (no injected parameter, state round-trips, no CR/LF in headers), form_post pages tokenised (only the expected inputs, no injected element), status matches code, debug detail only when enabled, no-store/no-cache everywhere. Storage: 16 flows x HMAC/JWT — no key or stored form value equals or contains a client secret, password, PKCE verifier, assertion or complete live code/token. A recognisable storage error text injected at every storage call of 19 flows never reaches the client.",
+   text="38 errors (all exported RFC errors + a plain Go error) x hint/debug text from 16 hostile fragments (pairs in quick, triples in thorough) x legacy/new format x debug exposure x 9 writers: JSON re-parsed, redirects re-parsed (no injected parameter, state round-trips, no CR/LF in headers), form_post pages tokenised (only the expected inputs, no injected element), status matches code, debug detail only when enabled, no-store/no-cache everywhere. Storage: 17 flows (incl. every kind of credential presented in every credential slot of the token, introspection and revocation endpoints) x HMAC/JWT — no key or stored form value equals or contains a client secret, password, PKCE verifier, assertion or complete live code/token. A recognisable storage error text injected at every storage call of 19 flows never reaches the client.",
    note="Known findings: OpenID Connect sessions keyed by the complete authorization code (storage contract). The user password necessarily reaches Authenticate."),
 })
 
